@@ -1,9 +1,13 @@
 // strand-harness: runs operations of the real `strand` crate (built from /repo's working tree with
 // feature strand_verif) on inputs given as JSON lines, one result per line. Every call runs under
 // catch_unwind; a panic is reported as "panic", a library error as "err".
+mod alloc;
 mod ops;
 mod sig;
 mod vctx;
+
+#[global_allocator]
+static GLOBAL: alloc::Counting = alloc::Counting;
 
 use serde_json::{json, Value};
 use std::io::{BufRead, Write};
@@ -75,7 +79,21 @@ fn main() {
         let ctx = v["ctx"].as_str().unwrap().to_string();
         let op = v["op"].as_str().unwrap().to_string();
         let args: Vec<Value> = v["args"].as_array().cloned().unwrap_or_default();
-        let res = panic::catch_unwind(|| run_case(&ctx, &op, &args));
+        // "peak:<op>" also reports the peak number of heap bytes requested while the op ran
+        let (probe, op) = match op.strip_prefix("peak:") {
+            Some(o) => (true, o.to_string()),
+            None => (false, op),
+        };
+        let res = panic::catch_unwind(|| {
+            if probe {
+                let base = alloc::reset_peak();
+                let v = run_case(&ctx, &op, &args);
+                let peak = alloc::peak().saturating_sub(base);
+                json!([v, peak])
+            } else {
+                run_case(&ctx, &op, &args)
+            }
+        });
         strand::rnd::verif::clear();
         let outv = match res {
             Ok(v) => v,
